@@ -19,7 +19,7 @@ TRUSTED = [
     "CPython str/int()/str.isdigit/hex/re semantics on Latin-1 text as transcribed in Codec/Comb.v (py_int, isdigit_c, url regex reading); validated against the interpreter on every run (kinds 'int', 'isdigit', 'get_puzzle_info_from_url', 'deserialize_problem_as_url')",
     "reading of the property: 'accepts' (CombWf.accepts/exact/consumed_all) = serialization succeeds on a value of the combinator's documented shape (Seq: list of exactly n items, Grid: exactly h rows of w, Tupl: per-element lists consumed completely and without a padded MultiDigit group, Rooms: partition of the board into orthogonally connected non-empty rooms); lenient inputs the serializer also tolerates (over-long lists, ragged rows, extra rows) are outside the domain",
     "well-formedness (CombWf.wf): OneOf alternatives strict, non-nullable, pairwise disjoint first-character sets; Tupl/Seq/Grid/ValuedRooms: continuation set of an element disjoint from the first set of every later element (DecInt must be followed by a non-digit); Rooms/ValuedRooms are not allowed as OneOf alternatives",
-    "ValuedRooms with rooms/cells in arbitrary order and 'every valid partition serializes' are established by the correspondence + search (all partitions of boards with <= 6 cells in all orders, random up to 6x6, big boards), not by a Coq theorem (statements kept as rooms_roundtrip_statement / valued_rooms_roundtrip_statement in Codec/CombRoundTrip.v); Rooms in arbitrary order and both combinators on canonical order are Coq theorems",
+    "ValuedRooms.serialize's rooms/values sort (sorted(zip(..), key=min(room))) is modelled as a stable insertion sort on the keys (Comb.sort_by_key); on a valid partition the keys (least cells) are pairwise distinct, so every correct sort returns the same list; compared with CPython's sort on every run (all partitions of boards with <= 6 cells in all room/cell orders, random up to 6x6). Rooms and ValuedRooms in arbitrary order of rooms and cells, and 'every valid partition serializes', are Coq theorems (rooms_roundtrip_any_partition, valued_rooms_roundtrip_any_order, rooms_statements_hold)",
 ]
 ASSUMPTIONS = [
     "value universe: int, str (Latin-1), None, list, tuple; bool/float/other objects are outside the model",
